@@ -493,8 +493,12 @@ def compare(fr, op, l, r, node):
             raise NeedCases(sorted(set(r2.atoms) | (set(I.simp_fin(l).atoms) if isinstance(I.simp_fin(l), AFin) else set())))
         raise Abort(f"membership test in {type(r).__name__} l={l!r} keys={list(r)[:3] if isinstance(r, dict) else None} n={len(r) if isinstance(r, dict) else 0}")
     if isinstance(op, (ast.Is, ast.IsNot)):
+        from .model import ClassRef as _CR, FuncRef as _FR
         same = (l is r) or (l is None and r is None) or (isinstance(l, bool) and isinstance(r, bool) and l == r) \
-            or (isinstance(l, EnumMember) and l == r)
+            or (isinstance(l, EnumMember) and l == r) or (isinstance(l, _CR) and isinstance(r, _CR) and l == r)
+        if not same and isinstance(l, (AInt, ABits, AFin)) and isinstance(r, (AInt, ABits, AFin)):
+            # identity of two computed values (small-int caching, interned constants) is not a property of the abstract value
+            raise Abort("identity (is / is not) of two computed values is not modelled")
         if is_abs(l) and r is None or is_abs(r) and l is None:
             o = l if isinstance(l, AOpq) else r if isinstance(r, AOpq) else None
             if o is not None and not o.notnone:
@@ -594,7 +598,7 @@ def compare(fr, op, l, r, node):
             return (verdict == "lt") if isinstance(op, (ast.Lt, ast.LtE)) else (verdict == "gt")
         from .model import CMP
         v = try_lift(CMP[type(op)], l, rc)
-        if v is not None:
+        if v is not None and v is not TOO_WIDE:
             return v
         return ACond("ord:" + type(op).__name__, l, rc)
     if isinstance(r, AInt) and lc is not None:
